@@ -42,13 +42,11 @@ DOC_SWITCH = 1e-8  # the documented `tol` of rotation_matrix_from_vectors (defau
 
 REPRO = {
     "dih": (
-        "import numpy as np, molli as ml\n"
-        "m = ml.Molecule.load_mol2(ml.files.dendrobine_mol2)\n"
-        "q = (14, 15, 21, 41)  # H-C-C-H style quadruple over an acyclic bond: any works\n"
-        "q = {quad}\n"
-        "m = ml.Molecule(ml.ConformerEnsemble.load_mol2(ml.files.pentane_confs_mol2)[0]) if {pent} else m\n"
-        "d0 = m.dihedral(*q); m.rotate_dihedral(q, {target}); d1 = m.dihedral(*q)\n"
-        "print('before', d0, 'target', {target}, 'after', d1, '2*d0-target', 2*d0-{target})\n"
+        "import molli as ml\n"
+        "m = ml.Molecule(ml.ConformerEnsemble.load_mol2(ml.files.pentane_confs_mol2)[0])\n"
+        "q, t = (0, 1, 5, 8), 1.0            # C-C-C-C of pentane, target 1.0 rad\n"
+        "d0 = m.dihedral(*q); m.rotate_dihedral(q, t); d1 = m.dihedral(*q)\n"
+        "print('before', d0, 'target', t, 'after', d1)   # after == 2*before - target (mod 2pi), not target\n"
     ),
     "rv_nan": (
         "import numpy as np\n"
@@ -684,7 +682,7 @@ def _judge_dihedral(ctx, pre, case, obj, q, d0, target, what):
                 f"{pre}:dihedral-ends-at-mirror-image-2d-minus-t(turned-the-wrong-way)",
                 f"{what}: dihedral was {d0:.9g}, target {target:.9g}, is {d1:.9g} = 2*{d0:.6g} - {target:.6g} (mod 2pi)",
                 case,
-                repro=REPRO["dih"].format(quad=tuple(q), target=repr(target), pent=case.get("mol", "").startswith("pentane") or case.get("ens") == "pentane_confs"),
+                repro=REPRO["dih"],
             )
         else:
             ctx.violation(f"{pre}:dihedral-not-at-target", f"{what}: dihedral was {d0:.9g}, target {target:.9g}, is {d1:.9g} (off by {err:.3g})", case)
@@ -1073,8 +1071,9 @@ def run(ctx):
         "exhaustive over finite lattices, nothing sampled: vectors/axes = 26 lattice directions x magnitudes {1,1e-3,1e3}, "
         "un-rotated (axis aligned) and turned by the seed-chosen global rotation; antiparallel neighbourhood v2 = -v1 + d|v1|u, "
         f"d in {list(D_MENU)}; every answer of a 12-entry menu (+ answers parallel / nearly parallel to v2 when they lie in [0,1)^3) "
-        "for each call that consumes numpy.random.rand; angle menu; every acyclic bond with neighbours on both sides x every (a,d) "
-        "choice x target menu; stated molecules/ensembles in the global pose. The result is 'holds at every lattice point' and says "
+        "for each call that consumes numpy.random.rand; angle menu; every acyclic bond with neighbours on both sides, both directions, x "
+        + ("every (a,d) neighbour choice" if thorough else "every (a,d) neighbour choice (molecules up to 20 atoms; the first and the last choice for dendrobine - quick tier)")
+        + " x target menu; stated molecules/ensembles in the global pose. The result is 'holds at every lattice point' and says "
         "nothing about values outside the lattice. A case is non-trivial when it passes its oracle AND actually moves something "
         "(rotation angle != 0 mod 2pi, displacement > 1e-6, vectors not parallel)"
     )
@@ -1106,7 +1105,7 @@ def run(ctx):
     for k in ks:
         for lo, hi in _chunks(78, 6):
             parts.append(("rv_pairs", (k, lo, hi)))
-        for lo, hi in _chunks(78, 3):
+        for lo, hi in _chunks(78, 6):
             parts.append(("rv_anti", (k, lo, hi)))
         parts.append(("ra", (k, 0, 78)))
     mols = MOLS_THOROUGH if thorough else MOLS_QUICK
@@ -1125,11 +1124,8 @@ def run(ctx):
     na = len(aln_cases(ctx))
     for lo, hi in _chunks(na, 8):
         parts.append(("aln", (lo, hi)))
-    # largest first, deterministic order
     ctx.pmap(_run_part, parts)
     ctx.note("parts", len(parts))
-    for s in ("column", "row", "None"):
-        pass
 
 
 def replay(ctx, case):
